@@ -250,6 +250,15 @@ class Table(Vector):
 			return (0, n_cols)
 		return (n_rows,) + self[0].shape
 
+	def fingerprint(self) -> int:
+		"""Fingerprint of the table's current contents.
+
+		Columns can be written through live column views (t.a[0] = x), which the
+		table is not told about, so a table-level memo would go stale. Each column
+		keeps its own (correctly invalidated) memo, so recombining them is cheap.
+		"""
+		return self._compute_fingerprint_full()
+
 	def _build_column_map(self):
 		"""Build mapping from sanitized column names to column indices.
 		
